@@ -367,7 +367,11 @@ Symbol *env_get_var_visible_at(Environment *env, const char *name, int line, int
 void env_set_var(Environment *env, const char *name, Value value) {
     Symbol *sym = env_get_var(env, name);
     if (sym) {
-        env_free_value(sym->value);
+        /* A struct record may be shared with other variables (let q: P = p) and with the
+         * value being assigned (set p p): it is not owned by this symbol alone */
+        if (sym->value.type != VAL_STRUCT) {
+            env_free_value(sym->value);
+        }
         sym->value = value;
 
         /* GC refcount fix: If the new string value is already referenced by
